@@ -10,6 +10,8 @@
    2. ATTRIBUTE conversion: attribute_converter.py  AttributeConverter.from_dict
       / to_ / ava_from / lcd_ava_from, from_local, list_to_local, over the
       regenerated attribute maps (Gen/AttrMaps.v); str.strip; ASCII str.lower.
+      (list_to_local / ava_from follow proposed_fix/C08-2 and C08-3; the code
+      before them is kept as the ..._before_fix definitions.)
    3. BUILD: Server.create_authn_response -> gather_authn_response_args ->
       _authn_response -> setup_assertion -> Assertion.construct ->
       Entity._response (which elements get signed / encrypted, in which
@@ -342,8 +344,10 @@ Definition from_dict (m : str * list (str * str) * list (str * str)) : conv :=
 (* ac_factory(): one converter per map, in order *)
 Definition default_acs : list conv := map from_dict attr_maps.
 
-(* an AttributeValue: text, or one NameID extension element (eduPersonTargetedID) *)
-Inductive aval := AText (s : str) | ANameID (fmt : str) (s : str).
+(* an AttributeValue: text, or one NameID extension element (eduPersonTargetedID), or one extension element
+   of the assertion namespace that is not a NameID (AOther: an attribute-less Audience element; to_ never
+   builds one - it is there to say how the reader treats extension elements other than NameID) *)
+Inductive aval := AText (s : str) | ANameID (fmt : str) (s : str) | AOther (s : str).
 Record attribute := { at_name : str; at_format : option str; at_friendly : option str; at_values : list aval }.
 
 Definition EPTID_OID : str := s2l "urn:oid:1.3.6.1.4.1.5923.1.1.1.10".
@@ -376,17 +380,27 @@ Fixpoint from_local (acs : list conv) (ava : identity) (name_format : str) : opt
 (* what the application reads for one value *)
 Inductive rval :=
 | RStr (s : str)
-| RNameID (fmt : option str) (value : option str).     (* {'NameID': {'format': .., 'value': ..}} *)
+| RNameID (fmt : option str) (value : option str)      (* {'NameID': {'format': .., 'value': ..}} *)
+| ROther (value : option str).                         (* {'Audience': {'value': ..}} *)
 
 Definition truthy (s : str) : option str := match s with [] => None | _ => Some s end.
 
+(* AttributeConverter.ava_from, one value (after proposed_fix/C08-3): a NameID extension element under the
+   local name eduPersonTargetedID is read as its trimmed text - '' when it has none, which is how to_()
+   sends an empty value; under any other name as {'NameID': {'format': .., 'value': ..}} *)
 Definition read_value (local : str) (v : aval) : rval :=
   match v with
   | AText s => RStr (strip s)                            (* '' when there is no text *)
   | ANameID fmt s =>
+      if str_eqb local EPTID then RStr (strip s)
+      else match s with
+           | [] => RNameID (truthy fmt) None
+           | _ => RNameID (truthy fmt) (Some (strip s))
+           end
+  | AOther s =>                                          (* not a NameID: its text only under eduPersonTargetedID and only if it has one *)
       match s with
-      | [] => RNameID (truthy fmt) None
-      | _ => if str_eqb local EPTID then RStr (strip s) else RNameID (truthy fmt) (Some (strip s))
+      | [] => ROther None
+      | _ => if str_eqb local EPTID then RStr (strip s) else ROther (Some (strip s))
       end
   end.
 
@@ -398,13 +412,16 @@ Definition ava_from (c : conv) (a : attribute) : option (str * list rval) :=
   end.
 (* lcd_ava_from *)
 Definition lcd_ava_from (a : attribute) : str * list rval :=
-  (strip (at_name a), map (fun v => match v with AText s => RStr (strip s) | ANameID _ _ => RStr [] end) (at_values a)).
+  (strip (at_name a), map (fun v => match v with AText s => RStr (strip s) | ANameID _ _ | AOther _ => RStr [] end) (at_values a)).
 
-(* acsd = dict((a.name_format, a) for a in acs): the LAST converter with that format *)
-Fixpoint acsd_get (nf : str) (acs : list conv) : option conv :=
-  match acs with
+(* list_to_local (after proposed_fix/C08-2): acsd[name_format] = EVERY converter registered for that name
+   format, in ac_factory order (the order from_local looks at them) *)
+Definition convs_for (nf : str) (acs : list conv) : list conv := filter (fun c => str_eqb nf (c_nf c)) acs.
+(* ... asked in turn; the first that knows the name answers; None = the KeyError of the last one *)
+Fixpoint first_known (cs : list conv) (a : attribute) : option (str * list rval) :=
+  match cs with
   | [] => None
-  | c :: r => match acsd_get nf r with Some c' => Some c' | None => if str_eqb nf (c_nf c) then Some c else None end
+  | c :: r => match ava_from c a with Some kv => Some kv | None => first_known r a end
   end.
 
 Definition ava := list (str * list rval).
@@ -419,15 +436,15 @@ Fixpoint ava_add (k : str) (vs : list rval) (d : ava) : ava :=
 (* an Attribute parsed without NameFormat keeps the constructor default of saml.Attribute: the uri format *)
 Definition parsed_format (a : attribute) : str := match at_format a with Some nf => nf | None => NAME_FORMAT_URI end.
 Definition read_attr (acs : list conv) (allow_unknown : bool) (a : attribute) : option (str * list rval) :=
-  match acsd_get (parsed_format a) acs with
-  | Some c =>
-      match ava_from c a with
+  match convs_for (parsed_format a) acs with
+  | [] =>
+      if str_eqb (parsed_format a) NAME_FORMAT_UNSPECIFIED || allow_unknown
+      then Some (lcd_ava_from a) else None
+  | cs =>
+      match first_known cs a with
       | Some kv => Some kv
       | None => if allow_unknown then Some (lcd_ava_from a) else None
       end
-  | None =>
-      if str_eqb (parsed_format a) NAME_FORMAT_UNSPECIFIED || allow_unknown
-      then Some (lcd_ava_from a) else None
   end.
 
 Fixpoint list_to_local_from (acs : list conv) (allow_unknown : bool) (attrs : list attribute) (d : ava) : ava :=
@@ -439,6 +456,55 @@ Fixpoint list_to_local_from (acs : list conv) (allow_unknown : bool) (attrs : li
 Definition list_to_local (acs : list conv) (allow_unknown : bool) (attrs : list attribute) : ava :=
   list_to_local_from acs allow_unknown attrs [].
 
+(* --- before the repairs proposed_fix/C08-2 and C08-3 ---
+   C08-3: ava_from returned the NameID text only `if attr == eduPersonTargetedID and ex.text`: an EMPTY
+          eduPersonTargetedID value came back as the dictionary {'NameID': {'format': ...}}
+   C08-2: acsd = dict((a.name_format, a) for a in acs) kept only the LAST converter of a name format while
+          from_local converts with the FIRST: names only the first one knows were sent but never delivered *)
+Definition read_value_before_fix (local : str) (v : aval) : rval :=
+  match v with
+  | AText s => RStr (strip s)
+  | ANameID fmt s =>
+      match s with
+      | [] => RNameID (truthy fmt) None
+      | _ => if str_eqb local EPTID then RStr (strip s) else RNameID (truthy fmt) (Some (strip s))
+      end
+  | AOther s =>
+      match s with
+      | [] => ROther None
+      | _ => if str_eqb local EPTID then RStr (strip s) else ROther (Some (strip s))
+      end
+  end.
+Definition ava_from_before_fix (c : conv) (a : attribute) : option (str * list rval) :=
+  match dict_get (lower (strip (at_name a))) (c_fro c) with
+  | Some local => Some (local, map (read_value_before_fix local) (at_values a))
+  | None => None
+  end.
+Fixpoint acsd_get_before_fix (nf : str) (acs : list conv) : option conv :=
+  match acs with
+  | [] => None
+  | c :: r => match acsd_get_before_fix nf r with Some c' => Some c' | None => if str_eqb nf (c_nf c) then Some c else None end
+  end.
+Definition read_attr_before_fix (acs : list conv) (allow_unknown : bool) (a : attribute) : option (str * list rval) :=
+  match acsd_get_before_fix (parsed_format a) acs with
+  | Some c =>
+      match ava_from_before_fix c a with
+      | Some kv => Some kv
+      | None => if allow_unknown then Some (lcd_ava_from a) else None
+      end
+  | None =>
+      if str_eqb (parsed_format a) NAME_FORMAT_UNSPECIFIED || allow_unknown
+      then Some (lcd_ava_from a) else None
+  end.
+Fixpoint list_to_local_from_before_fix (acs : list conv) (allow_unknown : bool) (attrs : list attribute) (d : ava) : ava :=
+  match attrs with
+  | [] => d
+  | a :: r => list_to_local_from_before_fix acs allow_unknown r
+                (match read_attr_before_fix acs allow_unknown a with Some (k, vs) => ava_add k vs d | None => d end)
+  end.
+Definition list_to_local_before_fix (acs : list conv) (allow_unknown : bool) (attrs : list attribute) : ava :=
+  list_to_local_from_before_fix acs allow_unknown attrs [].
+
 (* --- the attribute statement as an XML tree and back --- *)
 Definition P_SAML : str := s2l "ns1:".                    (* prefix ElementTree gives the assertion namespace in a Response *)
 Definition T (local : string) : str := P_SAML ++ s2l local.
@@ -448,6 +514,7 @@ Definition value_xml (v : aval) : xml :=
   match v with
   | AText s => Node (T "AttributeValue") [(A "xsi:type", A "xs:string"); (A "xmlns:xs", XS_NAMESPACE)] s []
   | ANameID fmt s => Node (T "AttributeValue") [] [] [Node (T "NameID") [(A "Format", fmt)] s []]
+  | AOther s => Node (T "AttributeValue") [] [] [Node (T "Audience") [] s []]
   end.
 Definition opt_attr (n : string) (v : option str) : list (str * str) :=
   match v with Some s => [(A n, s)] | None => [] end.
@@ -467,6 +534,7 @@ Definition value_of_xml (t : xml) : aval :=
   match x_kids t with
   | Node tag attrs text _ :: _ =>
       if str_eqb tag (T "NameID") then ANameID (match get_attr (A "Format") attrs with Some f => f | None => [] end) text
+      else if str_eqb tag (T "Audience") then AOther text
       else AText (x_text t)
   | [] => AText (x_text t)
   end.
@@ -702,6 +770,7 @@ Definition show_rval (v : rval) : val :=
   match v with
   | RStr s => VS s
   | RNameID f x => VL [VS (s2l "NameID"); show_ostr f; show_ostr x]
+  | ROther x => VL [VS (s2l "Audience"); VNone; show_ostr x]
   end.
 (* dict order is not an observable: sort by key *)
 Fixpoint str_leb (a b : str) : bool :=
@@ -720,7 +789,7 @@ Definition show_ava (d : ava) : val :=
   VL (map (fun kv => VL [VS (fst kv); VL (map show_rval (snd kv))]) (sort_kv d)).
 Definition show_attribute (a : attribute) : val :=
   VL [VS (at_name a); show_ostr (at_format a); show_ostr (at_friendly a);
-      VL (map (fun v => match v with AText s => VS s | ANameID f s => VL [VS f; VS s] end) (at_values a))].
+      VL (map (fun v => match v with AText s => VS s | ANameID f s => VL [VS f; VS s] | AOther s => VL [VS (s2l "Audience"); VS s; VNone] end) (at_values a))].
 Definition show_attributes (o : option (list attribute)) : val := show_option (fun l => VL (map show_attribute l)) o.
 Definition show_nameid (n : nameid) : val := VL [VS (n_text n); show_ostr (n_format n); show_ostr (n_spq n); show_ostr (n_nq n)].
 Definition show_view (v : app_view) : val :=
